@@ -428,6 +428,8 @@ def import_dobs_string(content, full_output=False, separator_insertion=True):
         Imported data and meta-data
     """
 
+    if isinstance(content, str):
+        content = content.encode('utf-8')
     root = et.fromstring(content)
 
     _check(root.tag == 'OBSERVABLES')
